@@ -259,6 +259,38 @@ struct Ex {
         if (auto *x = dyn_cast<CallExpr>(e)) {
             const FunctionDecl *FD = x->getDirectCallee();
             std::string callee = FD ? FD->getQualifiedNameAsString() : "";
+            if (!FD) {
+                // calls inside templates that are resolved only at instantiation: keep their shape (receiver, member name, written
+                // qualified name) instead of an opaque callee expression
+                const Expr *ce = x->getCallee()->IgnoreParens();
+                if (auto *DM = dyn_cast<CXXDependentScopeMemberExpr>(ce)) {
+                    if (!DM->isImplicitAccess()) {
+                        KV kv{{"obj", E(DM->getBase())}, {"callee", DM->getMember().getAsString()}, {"args", args(x->arguments())},
+                              {"t", ty(x->getType())}, {"ot", ty(DM->getBaseType())}, {"arrow", DM->isArrow()}, {"dependent", true}};
+                        return node("mcall", std::move(kv), e);
+                    }
+                } else if (auto *UM = dyn_cast<UnresolvedMemberExpr>(ce)) {
+                    if (!UM->isImplicitAccess()) {
+                        KV kv{{"obj", E(UM->getBase())}, {"callee", UM->getMemberName().getAsString()}, {"args", args(x->arguments())},
+                              {"t", ty(x->getType())}, {"ot", ty(UM->getBaseType())}, {"arrow", UM->isArrow()}, {"dependent", true}};
+                        return node("mcall", std::move(kv), e);
+                    }
+                } else if (auto *UL = dyn_cast<UnresolvedLookupExpr>(ce)) {
+                    if (UL->getQualifier()) {
+                        llvm::raw_string_ostream os(callee);
+                        UL->getQualifier()->print(os, PP);
+                        os << UL->getName().getAsString();
+                        os.flush();
+                    } else if (UL->getNumDecls() == 1) {
+                        const NamedDecl *D = (*UL->decls_begin())->getUnderlyingDecl();
+                        if (isa<FunctionTemplateDecl>(D) || isa<FunctionDecl>(D)) callee = D->getQualifiedNameAsString();
+                    }
+                    if (!callee.empty()) {
+                        KV kv{{"callee", callee}, {"args", args(x->arguments())}, {"t", ty(x->getType())}, {"dependent", true}};
+                        return node("call", std::move(kv), e);
+                    }
+                }
+            }
             KV kv{{"callee", callee}, {"args", args(x->arguments())}, {"t", ty(x->getType())}};
             if (callee.empty()) kv.push_back({"calleeExpr", E(x->getCallee())});
             calleeInfo(FD, kv);
@@ -304,7 +336,12 @@ struct Ex {
                         e);
         if (auto *x = dyn_cast<CXXScalarValueInitExpr>(e)) return node("zeroinit", {{"type", ty(x->getType())}});
         if (auto *x = dyn_cast<ImplicitValueInitExpr>(e)) return node("zeroinit", {{"type", ty(x->getType())}});
-        if (auto *x = dyn_cast<UnaryExprOrTypeTraitExpr>(e)) return node("sizeof", {{"src", src(x)}});
+        if (auto *x = dyn_cast<UnaryExprOrTypeTraitExpr>(e)) {
+            KV kv{{"src", src(x)}};
+            Expr::EvalResult r;
+            if (!x->isValueDependent() && !x->isTypeDependent() && x->EvaluateAsInt(r, C)) kv.push_back({"v", (int64_t)r.Val.getInt().getExtValue()});
+            return node("sizeof", std::move(kv));
+        }
         if (auto *x = dyn_cast<CXXTypeidExpr>(e)) return node("typeid", {{"src", src(x)}});
         if (auto *x = dyn_cast<PredefinedExpr>(e)) return node("str", {{"v", std::string("__func__")}});
         if (auto *x = dyn_cast<ArrayInitLoopExpr>(e)) return E(x->getCommonExpr());
@@ -511,6 +548,11 @@ struct V : RecursiveASTVisitor<V> {
         o["member"] = D->isStaticDataMember();
         o["tls"] = D->getTLSKind() != VarDecl::TLS_None;
         o["init"] = ex.E(D->getInit());
+        // compile-time value of integral constants (`constexpr int n = sizeof(a) / sizeof(a[0]);`)
+        if ((D->isConstexpr() || D->getType().isConstQualified()) && D->getType()->isIntegralOrEnumerationType() && D->getInit() &&
+            !D->getInit()->isValueDependent() && !D->getType()->isDependentType())
+            if (const APValue *V = D->evaluateValue())
+                if (V->isInt()) o["cv"] = (int64_t)V->getInt().getExtValue();
         globals.push_back(std::move(o));
         return true;
     }
